@@ -47,6 +47,9 @@ def gen_cases(rng, tier, scale):
         for k in range(0, min(nw, 200) + 1):
             cases.append({'line': case_line(f'b{i}k{k}', t, d, p, e, k), 'kind': 'fault', 'grp': i, 'k': k, 'nw': nw,
                           'full': r['out'], 'tags': ['fault'], 'tpl': t})
+            # a writer that fails only once: anything written after the failure becomes visible
+            cases.append({'line': case_line(f'b{i}o{k}', t, d, p, e, 1000000 + k), 'kind': 'fault', 'grp': 100000 + i, 'k': k, 'nw': nw,
+                          'full': r['out'], 'tags': ['fail-once'], 'tpl': t})
     return cases
 
 def oracle(c, io, mo):
